@@ -151,6 +151,7 @@ FORMULAS = [
     "A'", "A''+B'", "A'^B", 'A--B', "{A'}", "{A}'_{B''}",
     '\\begin{array}{cc}A&B\\\\C&D\\end{array}', '\\begin{array}{|c|}\\hline A\\\\\\hline\\end{array}', '\\begin{array}{c}A\\\\ \\hline B\\\\ \\cline{1-1}\\end{array}',
     '\\left(\\begin{array}{c}A\\\\B\\end{array}\\right)', '\\begin{array}{c}A\\\\ \\\\ \\hline B\\end{array}',
+    '{}^{A}B', 'A{}B', '\\mbox{A{}B}', 'A^{}_{B}', '{}_A{}^B',
     'A_\\ua', 'A^\\uR', '\\frac\\ua\\uh', '\\sqrt\\uh', '\\uR^A', 'A^{\\uR}', '\\ua A',
 ]
 ENVS = [('$', '$'), ('\\(', '\\)'), ('\\[', '\\]'), ('\\begin{equation}', '\\end{equation}'), ('\\begin{eqnarray}', '\\end{eqnarray}')]
